@@ -98,7 +98,9 @@ func (s *expiry) cancel() bool {
 
 func (s *expiry) persistedState() *vlpersistence.SessionDelays {
 	exp := &vlpersistence.SessionDelays{
-		Since: s.expiringSince.Format(time.RFC3339),
+		// with its fraction of a second: the interval may be as short as one second, it must not
+		// look elapsed after a restart just because the start was rounded down
+		Since: s.expiringSince.Format(time.RFC3339Nano),
 	}
 
 	if s.will != nil {
